@@ -36,6 +36,11 @@ var c01Combs = []string{
 	"'a' = x", "'a' = x x", "('a' or 'b') = x x", "(at least 1 'a') = x 'b' x", "any = x any = y x y", "(any any) = x x",
 	"{'a'} = s", "{'a'} = s s", "{'a' or 'b'} = s s", "{'a' maybe s 'b'} = s", "{'a' maybe s 'b'} = s 'c'", "{at least 1 'a'} = s 'b' s",
 	"{'a' (s or 'b')} = s", "{'a' at most 1 s} = s s",
+	// bounded loops nested in bounded loops and re-entered through subroutines: a loop that ends exactly at
+	// its maximum must leave the loop bookkeeping of the enclosing / next activation intact
+	"at most 2 maybe 'a'", "at most 2 (maybe 'a' 'b')", "between 1 and 2 at most 1 'a'", "at most 1 (at most 1 'a' 'b') 'b'", "exactly 2 maybe 'a' 'b'",
+	"between 1 and 2 (between 1 and 2 'a')", "at most 2 (at most 2 'a' fewest 'b')", "at most 2 (between 1 and 2 'a' 'b')", "{maybe 'a' 'b'} = s s", "{at most 1 'a' 'b'} = s s s",
+	"at most 2 {maybe 'a' 'b'} = s", "maybe (maybe 'a' 'b') 'a'", "at most 2 (at most 2 (maybe 'a') 'b')",
 }
 
 var c01Globals = []string{
